@@ -188,12 +188,27 @@ fn main() {
                     fail(format!("{}: the NSEC at {} has class {} TTL {:?} (expected IN, {:?})", desc, owner, r.class(), r.ttl(), exp_ttl));
                 }
             }
-            // ---- NSEC3 (no opt-out)
+            // ---- NSEC3: without opt-out, with opt-out excluding the insecure delegations (the default of with_opt_out), and with
+            // the opt-out flag but every name kept
+            for optout in 0..3u8 {
+            let desc = format!("{desc}, NSEC3 opt-out mode {optout} (0 none, 1 flag + insecure delegations excluded, 2 flag only)");
             let cfg3: GenerateNsec3Config<Bytes, domain::dnssec::sign::records::DefaultSorter> = if with_dnskey {
                 GenerateNsec3Config::default()
             } else {
                 GenerateNsec3Config::default().without_assuming_dnskeys_will_be_added()
             };
+            let cfg3 = match optout {
+                0 => cfg3,
+                1 => cfg3.with_opt_out(),
+                _ => cfg3.with_opt_out().without_opt_out_excluding_owner_names_of_unsigned_delegations(),
+            };
+            // with exclusion, an insecure delegation (NS without DS) gets no NSEC3 (RFC 5155 7.1) -- and neither does an
+            // empty non-terminal that is only there because of it
+            let auth: Vec<(N, Vec<Rtype>)> = auth
+                .iter()
+                .filter(|(o, t)| !(optout == 1 && cuts.contains(o) && !t.contains(&Rtype::DS)))
+                .cloned()
+                .collect();
             let out = match generate_nsec3s(&apex, recs.owner_rrs(), &cfg3) {
                 Ok(v) => v,
                 Err(e) => fail(format!("{}: generate_nsec3s fails: {}", desc, e)),
@@ -240,6 +255,9 @@ fn main() {
                 if got_next != next_label {
                     fail(format!("{}: the NSEC3 of {} has next hashed owner {} (expected {})", desc, o, got_next, next_label));
                 }
+                if r.data().opt_out() != (optout != 0) {
+                    fail(format!("{}: the NSEC3 of {} has opt-out flag {}", desc, o, r.data().opt_out()));
+                }
                 let got: BTreeSet<Rtype> = r.data().types().iter().collect();
                 if got.contains(&Rtype::NSEC) {
                     fail(format!("{}: the NSEC3 of {} lists NSEC", desc, o));
@@ -272,6 +290,7 @@ fn main() {
                         }
                     }
                 }
+            }
             }
         }
     }
